@@ -1,5 +1,6 @@
 import Guard.Model.Eval
 import Guard.Properties.C06
+import Guard.Lemmas.FramesEval
 /-
   C12 — evaluations are isolated: each (rules file, data file) pair stands alone.
 
@@ -60,5 +61,56 @@ theorem C12_fails_iff (files : List Cli.RuleFile) (he : C06.noEvalError files) (
     rw [this] at h
     exact absurd h (by decide)
   · intro h; exact C06.C06_validate_fail_plain files he hp h
+
+/-- **no scope is left behind**: evaluating a whole rules file from ANY state (any scope stack, memo tables,
+    records) leaves the scope stack as it found it — same frames, roots, variable tables and parameter
+    bindings; so nothing a later evaluation could resolve against is carried over.  Proved through the
+    whole fuel-indexed mutual evaluator (`allPres`). -/
+theorem C12_scopes_restored (env : Env) (fuel : Nat) (file : RulesFile) (st st' : St) (s : Status)
+    (h : evalRulesFile env fuel file st = .ok (s, st')) : FramesSim st.frames st'.frames := by
+  have hp : Pres (evalRulesFile env fuel file) := by
+    unfold evalRulesFile
+    exact pres_withRec (pres_bind (pres_mapM (fun r => (allPres env fuel).rule r) _) (fun _ => pres_pure _))
+  exact hp st s st' h
+
+/-- every rule evaluation, taken alone, restores the stack and the current root -/
+theorem C12_rule_leaves_no_scope (env : Env) (fuel : Nat) (r : Rule) (st st' : St) (s : Status)
+    (h : evalRule env fuel r st = .ok (s, st')) :
+    FramesSim st.frames st'.frames ∧ rootOfFrames st'.frames = rootOfFrames st.frames :=
+  have hs := (allPres env fuel).rule r st s st' h
+  ⟨hs, hs.root.symm⟩
+
+/-- a whole-file evaluation started by `root_scope` ends with exactly the one root block scope it started with -/
+theorem C12_init_stack (env : Env) (fuel : Nat) (file : RulesFile) (doc : PV) (st' : St) (s : Status)
+    (h : evalRulesFile env fuel file (St.init file doc) = .ok (s, st')) :
+    ∃ b, st'.frames = [.block b] ∧ b.root = doc := by
+  have hs := C12_scopes_restored env fuel file _ st' s h
+  simp only [St.init] at hs
+  obtain ⟨g, gs, e, hg, hr⟩ := FramesSim.cons_inv hs
+  cases gs with
+  | cons _ _ => simp [FramesSim] at hr
+  | nil =>
+    cases g with
+    | block b =>
+      refine ⟨b, e, ?_⟩
+      simp only [Frame.sim] at hg
+      rw [← hg.1]
+      -- the root of `extractVariables lets doc` is `doc`
+      have : ∀ (lets : List LetExpr) (b0 : BlockFrame), (lets.foldl (fun b l =>
+          match l.value with
+          | .value v => { b with lits := alInsert l.var v b.lits }
+          | .access q a => { b with queries := alInsert l.var (q, a) b.queries }
+          | .func n ps => { b with funs := alInsert l.var (n, ps) b.funs }) b0).root = b0.root := by
+        intro lets
+        induction lets with
+        | nil => intro b0; rfl
+        | cons l ls ih =>
+          intro b0
+          simp only [List.foldl_cons]
+          rw [ih]
+          cases l.value <;> rfl
+      exact this _ _
+    | value r => simp [Frame.sim] at hg
+    | params ps => simp [Frame.sim] at hg
 
 end Guard.C12
